@@ -69,7 +69,7 @@ def run(ctx):
     ctx.prove()
 
     length = ctx.n(42, 60)
-    npairs = ctx.n(200, 5000)
+    npairs = ctx.n(200, 3000)
     seeds = [ctx.rng.randrange(10 ** 9) for _ in range(npairs)]
     corpus = corpus_seeds()
     jobs = [(s, length) for s in corpus + seeds]
@@ -102,7 +102,17 @@ def run(ctx):
     ctx.obligation("harness:no-crash", not crashes, crashes[0][1] if crashes else "")
     ctx.obligation("trace:every-storage-call-is-modelled", not unmodelled, repr(unmodelled[:3]))
 
-    bad = ctx.diff_cases("c13", HEADER, "run_script", cases, lambda s: s, lambda s: s, "eq_llN", shard=40)
+    # batches of <= 48 shard files, so that every batch has its own time budget on a loaded machine
+    bad, failed_eval = [], False
+    per = 40 * 48
+    for k in range(0, len(cases), per):
+        b = ctx.diff_cases("c13b%d" % (k // per), HEADER, "run_script", cases[k:k + per], lambda s: s, lambda s: s, "eq_llN", shard=40)
+        if b is None:
+            failed_eval = True
+            break
+        bad += [k + i for i in b]
+    if failed_eval:
+        bad = None
     if bad is not None:
         ctx.obligation("correspondence:storage-calls-and-cache-state", not bad,
                        "" if not bad else "model differs from the implementation on %d of %d scripts, first: pair seed %r run %s"
